@@ -56,3 +56,48 @@ func TestC11RegressFixed(t *testing.T) {
 		}
 	}
 }
+
+func TestStoreRegressFixed(t *testing.T) {
+	a, b := gen.Keys[0].Pub, gen.Keys[1].Pub
+	mk := func(pk string, kind, ts int64, tags ...mocrelay.Tag) *mocrelay.Event {
+		e := &mocrelay.Event{Pubkey: pk, Kind: kind, CreatedAt: ts, Tags: append([]mocrelay.Tag{}, tags...)}
+		gen.Seal(e)
+		return e
+	}
+	ids := func(c *mocrelay.EventCache) []string { return gen.SortedIDs(c.Find([]*mocrelay.ReqFilter{{}})) }
+	if focusOn("C03") {
+		c := mocrelay.NewEventCache(4)
+		c.Add(mk(a, 1, 1))
+		if _, p := safeFind(c, []*mocrelay.ReqFilter{{Tags: map[string][]string{}}}); p != nil {
+			hx.Fail(t, ev.Failure{Property: "C03", Signature: "find-panic", Clause: "regression: Find with an empty non-nil Tags map must not panic", Observed: "panic"})
+		}
+	}
+	if focusOn("C04") {
+		c := mocrelay.NewEventCache(4)
+		eph := mk(a, 20000, 5)
+		if !c.Add(eph) || len(ids(c)) != 0 {
+			hx.Fail(t, ev.Failure{Property: "C04", Signature: "ephemeral-stored", Clause: "regression: ephemeral events are reported new and never served from storage", Observed: "stored or rejected"})
+		}
+	}
+	if focusOn("C05") {
+		c := mocrelay.NewEventCache(4)
+		x := mk(a, 30000, 5) // addressable without d tag, author a
+		y := mk(b, 30001, 6) // another author, another kind, no d tag
+		c.Add(x)
+		c.Add(y)
+		if got := ids(c); len(got) != 2 {
+			hx.Fail(t, ev.Failure{Property: "C05", Signature: "foreign-event-removed", Clause: "regression: events of different authors must not share a slot", Observed: "one of them was displaced"})
+		}
+		c2 := mocrelay.NewEventCache(4)
+		r := mk(a, 0, 5)
+		c2.Add(r)
+		k := mk(a, 5, 6, mocrelay.Tag{"e", r.ID})
+		c2.Add(k)
+		if got := ids(c2); len(got) != 1 || got[0] != k.ID {
+			hx.Fail(t, ev.Failure{Property: "C05", Signature: "deletion-target-survives", Clause: "regression: e reference to a replaceable event must remove it", Observed: "still retained"})
+		}
+		if c2.Add(gen.CloneEvent(r)) {
+			hx.Fail(t, ev.Failure{Property: "C05", Signature: "deleted-event-reinserted", Clause: "regression: deleted replaceable event must not be inserted again", Observed: "accepted"})
+		}
+	}
+}
